@@ -1,4 +1,5 @@
 import Tw.Proofs.HuffmanFreqInner
+import Tw.Proofs.HuffmanRefD
 
 /-! The depth-first traversal of `from_frequencies` (explicit 24-entry stack, direction bits) writes
 into every symbol's entry the code of a path from the root to that symbol: together with
@@ -130,5 +131,402 @@ theorem assignD_visit (N : Table) (hsize : N.size = 513) (hin : InnerBelow N) (g
               rw [dfs_pop_set T2 f4 n stack _ hset, Nat.add_sub_cancel] at r2
               refine ⟨T2, f4, ?_, s2, r2⟩
               simp only [visitSpec, hleaf, hfull, if_false, v1, v2]
+
+/-! ### paths -/
+
+/-- follow `p` from `nd` through inner nodes; the last step may land on a symbol -/
+def go (N : Table) : Nat → List Bool → Option Nat
+  | nd, [] => some nd
+  | nd, b :: bs => if nd ≥ NUM_SYMBOLS then go N (child N nd b) bs else none
+
+theorem go_append (N : Table) (p q : List Bool) :
+    ∀ nd, go N nd (p ++ q) = (go N nd p).bind (fun m => go N m q) := by
+  induction p with
+  | nil => intro nd; simp [go]
+  | cons b bs ih =>
+    intro nd
+    simp only [List.cons_append, go]
+    split
+    · exact ih _
+    · rfl
+
+theorem go_walk (N : Table) (p : List Bool) :
+    ∀ nd s, go N nd p = some s → s < NUM_SYMBOLS → p ≠ [] → walk N nd p = some s := by
+  induction p with
+  | nil => intro nd s _ _ h; exact absurd rfl h
+  | cons b bs ih =>
+    intro nd s hgo hs _
+    simp only [go] at hgo
+    split at hgo
+    · simp only [walk, walkF]
+      have hc : childF (node N) nd b = child N nd b := rfl
+      rw [hc]
+      by_cases hge : child N nd b ≥ NUM_SYMBOLS
+      · simp only [hge, if_true]
+        have hbs : bs ≠ [] := by
+          intro hb; subst hb
+          simp only [go, Option.some.injEq] at hgo
+          omega
+        exact ih _ _ hgo hs hbs
+      · simp only [hge, if_false]
+        cases bs with
+        | nil =>
+          simp only [go, Option.some.injEq] at hgo
+          simp [hgo]
+        | cons b' bs' =>
+          simp only [go, hge, if_false] at hgo
+          cases hgo
+    · cases hgo
+
+/-- `bits` (of length `k`) leads from the root to `n` -/
+def PathTo (N : Table) (n bits k : Nat) : Prop :=
+  bits < 2 ^ k ∧ go N ROOT_IDX (natBits k bits) = some n
+
+theorem pathTo_left (N : Table) (n bits k : Nat) (h : PathTo N n bits k) (hn : n ≥ NUM_SYMBOLS) :
+    PathTo N (node N n).1 bits (k + 1) := by
+  refine ⟨by rw [Nat.pow_succ]; have := h.1; omega, ?_⟩
+  rw [natBits_add k 1 bits, go_append, h.2, Nat.div_eq_of_lt h.1]
+  simp [natBits, go, hn, child, childF]
+
+theorem pathTo_right (N : Table) (n bits k : Nat) (h : PathTo N n bits k) (hn : n ≥ NUM_SYMBOLS) :
+    PathTo N (node N n).2 (bits + 2 ^ k) (k + 1) := by
+  refine ⟨by rw [Nat.pow_succ]; have := h.1; omega, ?_⟩
+  have h1 : natBits k (bits + 2 ^ k) = natBits k bits := by
+    rw [← natBits_mod k k (bits + 2 ^ k) (Nat.le_refl _), Nat.add_mod_right,
+      Nat.mod_eq_of_lt h.1]
+  have h2 : (bits + 2 ^ k) / 2 ^ k = 1 := by
+    rw [Nat.add_div_right _ (Nat.two_pow_pos _), Nat.div_eq_of_lt h.1]
+  rw [natBits_add k 1 (bits + 2 ^ k), go_append, h1, h.2, h2]
+  simp [natBits, go, hn, child, childF]
+
+/-! ### what the traversal establishes -/
+
+/-- the entry of symbol `s` in `R` is the code of a path from the root of `N` to `s` -/
+def Valid (N R : Table) (s : Nat) : Prop :=
+  s < NUM_SYMBOLS ∧ ∃ k b, node R s = encLeaf k b ∧ 0 < k ∧ k ≤ 24 ∧ b < 2 ^ k
+    ∧ walk N ROOT_IDX (natBits k b) = some s
+
+/-- `j` is in the subtree below `n` -/
+inductive Reach (N : Table) : Nat → Nat → Prop where
+  | refl (n : Nat) : Reach N n n
+  | left (n j : Nat) : n ≥ NUM_SYMBOLS → Reach N (node N n).1 j → Reach N n j
+  | right (n j : Nat) : n ≥ NUM_SYMBOLS → Reach N (node N n).2 j → Reach N n j
+
+theorem Reach.snoc (N : Table) (n i j : Nat) (h : Reach N n i) (hi : i ≥ NUM_SYMBOLS)
+    (hj : (node N i).1 = j ∨ (node N i).2 = j) : Reach N n j := by
+  induction h with
+  | refl n =>
+    rcases hj with e | e
+    · exact Reach.left n j hi (e ▸ Reach.refl _)
+    · exact Reach.right n j hi (e ▸ Reach.refl _)
+  | left n i' hn _ ih => exact Reach.left n j hn (ih hi hj)
+  | right n i' hn _ ih => exact Reach.right n j hn (ih hi hj)
+
+theorem node_set_eq (T : Table) (n : Nat) (v : Nat × Nat) (h : n < T.size) :
+    node (T.set! n v) n = v := by
+  simp [node, Array.set!_eq_setIfInBounds, Array.getD_eq_getD_getElem?, h]
+
+theorem visitSpec_props (N : Table) (hsize : N.size = 513) (g : Nat) :
+    ∀ (T : Table) (n bits k : Nat) (R : Table), visitSpec N g T n bits k = some R →
+      SameInner T N → PathTo N n bits k → k ≤ 24 →
+      SameInner R N ∧ (∀ s, Valid N T s → Valid N R s)
+        ∧ (∀ s, s < NUM_SYMBOLS → Reach N n s → Valid N R s) := by
+  induction g with
+  | zero => intro T n bits k R h; simp [visitSpec] at h
+  | succ g ih =>
+    intro T n bits k R h hsame hpath hk
+    simp only [visitSpec] at h
+    by_cases hleaf : n < NUM_SYMBOLS
+    · simp only [hleaf, if_true, Option.some.injEq] at h
+      subst h
+      have hTsz : n < T.size := by rw [hsame.1, hsize]; simp only [NUM_SYMBOLS] at hleaf; omega
+      -- the new entry is valid
+      have hnew : Valid N (T.set! n (encLeaf k bits)) n := by
+        refine ⟨hleaf, k, bits, node_set_eq T n _ hTsz, ?_, hk, hpath.1, ?_⟩
+        · cases k with
+          | zero =>
+            have := hpath.2
+            simp only [natBits, go, Option.some.injEq] at this
+            simp only [NUM_SYMBOLS, ROOT_IDX] at *
+            omega
+          | succ k => omega
+        · apply go_walk N _ _ _ hpath.2 hleaf
+          intro hnil
+          have := congrArg List.length hnil
+          simp only [natBits_length, List.length_nil] at this
+          subst this
+          have := hpath.2
+          simp only [natBits, go, Option.some.injEq] at this
+          simp only [NUM_SYMBOLS, ROOT_IDX] at *
+          omega
+      refine ⟨sameInner_set T N hsame n hleaf _, ?_, ?_⟩
+      · intro s hv
+        by_cases hs : s = n
+        · subst hs; exact hnew
+        · obtain ⟨v1, k', b', v2, v3⟩ := hv
+          exact ⟨v1, k', b', by rw [node_set_ne _ _ _ _ (Ne.symm hs)]; exact v2, v3⟩
+      · intro s hs hr
+        cases hr with
+        | refl => exact hnew
+        | left _ _ hn _ => omega
+        | right _ _ hn _ => omega
+    · simp only [hleaf, if_false] at h
+      have hge : n ≥ NUM_SYMBOLS := by omega
+      by_cases hfull : k ≥ 24
+      · simp [hfull] at h
+      · simp only [hfull, if_false] at h
+        cases h1 : visitSpec N g T (node N n).1 bits (k + 1) with
+        | none => rw [h1] at h; cases h
+        | some T1 =>
+          rw [h1] at h
+          simp only at h
+          obtain ⟨a1, a2, a3⟩ := ih T _ _ _ T1 h1 hsame (pathTo_left N n bits k hpath hge) (by omega)
+          obtain ⟨b1, b2, b3⟩ := ih T1 _ _ _ R h a1 (pathTo_right N n bits k hpath hge) (by omega)
+          refine ⟨b1, fun s hv => b2 s (a2 s hv), ?_⟩
+          intro s hs hr
+          cases hr with
+          | refl => omega
+          | left _ _ _ hl => exact b2 s (a3 s hs hl)
+          | right _ _ _ hrr => exact b3 s hs hrr
+
+/-- every node is in the subtree of the root -/
+theorem reach_root (N : Table) (hsize : N.size = 513) (hin : InnerBelow N) (hcov : Covered N) :
+    ∀ m j, 512 - j ≤ m → j < 513 → Reach N ROOT_IDX j := by
+  intro m
+  induction m with
+  | zero =>
+    intro j hm hj
+    have : j = 512 := by omega
+    subst this; exact Reach.refl _
+  | succ m ih =>
+    intro j hm hj
+    rcases hcov j (by rw [hsize]; exact hj) with e | ⟨i, i1, i2, i3⟩
+    · rw [hsize] at e
+      have : j = 512 := by omega
+      subst this; exact Reach.refl _
+    · have hch := hin i i1 i2
+      rw [hsize] at i2
+      have hij : j < i := by rcases i3 with e | e <;> omega
+      exact Reach.snoc N _ i j (ih i (by omega) i2) i1 i3
+
+/-! ### assembling `WellFormed` -/
+
+theorem walk_congr (t N : Table) (h : SameInner t N) (p : List Bool) :
+    ∀ nd, nd ≥ NUM_SYMBOLS → walk t nd p = walk N nd p := by
+  induction p with
+  | nil => intro nd _; rfl
+  | cons b bs ih =>
+    intro nd hnd
+    simp only [walk, walkF]
+    have hc : childF (node t) nd b = childF (node N) nd b := by simp only [childF, h.2 nd hnd]
+    rw [hc]
+    by_cases hge : childF (node N) nd b ≥ NUM_SYMBOLS
+    · simp only [hge, if_true]; exact ih _ hge
+    · simp only [hge, if_false]
+
+theorem encLeaf_decode (t : Table) (s k b : Nat) (h : node t s = encLeaf k b) (hb : b < 2 ^ 24) :
+    symLen t s = k ∧ symBits t s = b := by
+  have hb' : b < 16777216 := hb
+  simp only [symLen, symLenF, symBits, symBitsF, h, encLeaf]
+  rw [Nat.mul_comm k 256]
+  constructor <;> omega
+
+/-- what the traversal leaves behind: the forest's inner nodes, and in every symbol's entry the code
+of a root path -/
+theorem dfs_valid (T t : Table) (hT1 : T.size = 513) (hT2 : InnerBelow T) (hT3 : Covered T)
+    (hdfs : dfs T 4096 [] 0 true = .ok t) :
+    SameInner t T ∧ ∀ s, s < NUM_SYMBOLS → Valid T t s := by
+  have e4096 : (4096 : Nat) = 4095 + 1 := rfl
+  rw [e4096, dfs_first] at hdfs
+  have hsameT : SameInner T T := ⟨rfl, fun _ _ => rfl⟩
+  obtain ⟨T1, f1, v, s1, r⟩ := assignD_visit T hT1 hT2 513 ROOT_IDX (by decide) (by decide)
+    T 32 4095 [] 0 t hsameT (by decide) (by decide) hdfs
+  have ht : t = T1 := by
+    cases f1 with
+    | zero => simp [dfs] at r
+    | succ f2 => rw [dfs_pop_nil] at r; cases r; rfl
+  subst ht
+  obtain ⟨p1, _, p3⟩ := visitSpec_props T hT1 513 T ROOT_IDX 0 0 t v hsameT
+    ⟨by decide, rfl⟩ (by decide)
+  exact ⟨p1, fun s hs => p3 s hs (reach_root T hT1 hT2 hT3 512 s (by omega)
+    (by simp only [NUM_SYMBOLS] at hs; omega))⟩
+
+theorem fromFrequencies_wellFormed (f : List Nat) (t : Table) (h : fromFrequencies f = .ok t) :
+    WellFormed t := by
+  have hinner := fromFrequencies_inner f t h
+  obtain ⟨T, hT1, hT2, hT3, hdfs, _, _⟩ := fromFrequencies_ok f t h
+  · -- the traversal
+    have e4096 : (4096 : Nat) = 4095 + 1 := rfl
+    rw [e4096, dfs_first] at hdfs
+    have hsameT : SameInner T T := ⟨rfl, fun _ _ => rfl⟩
+    obtain ⟨T1, f1, v, s1, r⟩ := assignD_visit T hT1 hT2 513 ROOT_IDX (by decide) (by decide)
+      T 32 4095 [] 0 t hsameT (by decide) (by decide) hdfs
+    have ht : t = T1 := by
+      cases f1 with
+      | zero => simp [dfs] at r
+      | succ f2 => rw [dfs_pop_nil] at r; cases r; rfl
+    subst ht
+    obtain ⟨p1, _, p3⟩ := visitSpec_props T hT1 513 T ROOT_IDX 0 0 t v hsameT
+      ⟨by decide, rfl⟩ (by decide)
+    refine ⟨hinner.1, ?_⟩
+    intro i hi
+    simp only [okAt, okAtF]
+    by_cases hleaf : i < NUM_SYMBOLS
+    · simp only [hleaf, if_true]
+      obtain ⟨_, k, b, e, k0, k24, bk, w⟩ := p3 i hleaf
+        (reach_root T hT1 hT2 hT3 512 i (by omega) (by simp only [NUM_NODES] at hi; exact hi))
+      have hb24 : b < 2 ^ 24 := Nat.lt_of_lt_of_le bk (Nat.pow_le_pow_right (by decide) k24)
+      obtain ⟨d1, d2⟩ := encLeaf_decode t i k b e hb24
+      have hw : walk t ROOT_IDX (codeBits t i) = some i := by
+        rw [walk_congr t T p1 _ ROOT_IDX (by decide)]
+        have : codeBits t i = natBits k b := by
+          simp only [codeBits, codeBitsF]
+          rw [show symLenF (node t) i = symLen t i from rfl, show symBitsF (node t) i = symBits t i from rfl,
+            d1, d2]
+        rw [this]; exact w
+      simp only [leafOkF, Bool.and_eq_true, decide_eq_true_eq, beq_iff_eq]
+      refine ⟨⟨⟨?_, ?_⟩, ?_⟩, hw⟩
+      · show 0 < symLen t i; rw [d1]; exact k0
+      · show symLen t i ≤ 24; rw [d1]; exact k24
+      · show symBits t i < 2 ^ symLen t i; rw [d1, d2]; exact bk
+    · simp only [hleaf, if_false]
+      have hge : NUM_SYMBOLS ≤ i := by omega
+      have := hT2 i hge (by rw [hT1]; simp only [NUM_NODES] at hi; exact hi)
+      rw [← p1.2 i hge] at this
+      simp only [innerOkF, Bool.and_eq_true, decide_eq_true_eq]
+      exact ⟨⟨this.1, this.2.1⟩, this.2.2⟩
+
+/-! ### paths are unique, hence the reference's lookup table is consistent (`LutOk`) -/
+
+theorem child_false (N : Table) (nd : Nat) : child N nd false = (node N nd).1 := rfl
+theorem child_true (N : Table) (nd : Nat) : child N nd true = (node N nd).2 := rfl
+
+theorem walk_go (N : Table) (p : List Bool) :
+    ∀ nd s, nd ≥ NUM_SYMBOLS → walk N nd p = some s → go N nd p = some s := by
+  induction p with
+  | nil => intro nd s _ h; simp [walk, walkF] at h
+  | cons b bs ih =>
+    intro nd s hnd h
+    simp only [walk, walkF] at h
+    have hc : childF (node N) nd b = child N nd b := rfl
+    rw [hc] at h
+    simp only [go, hnd, if_true]
+    by_cases hge : child N nd b ≥ NUM_SYMBOLS
+    · simp only [hge, if_true] at h
+      exact ih _ _ hge h
+    · simp only [hge, if_false] at h
+      split at h
+      · next hemp =>
+        have : bs = [] := by simpa using hemp
+        subst this
+        simpa [go] using h
+      · cases h
+
+theorem go_le (N : Table) (hsize : N.size = 513) (hin : InnerBelow N) (p : List Bool) :
+    ∀ nd m, nd < 513 → go N nd p = some m → m ≤ nd ∧ (p ≠ [] → m < nd) := by
+  induction p with
+  | nil => intro nd m _ h; simp only [go, Option.some.injEq] at h; subst h; exact ⟨Nat.le_refl _, fun h => absurd rfl h⟩
+  | cons b bs ih =>
+    intro nd m hnd h
+    simp only [go] at h
+    split at h
+    · next hge =>
+      have hch := hin nd hge (by rw [hsize]; exact hnd)
+      have hlt : child N nd b < nd := by
+        cases b
+        · rw [child_false]; exact hch.1
+        · rw [child_true]; exact hch.2.1
+      have := ih _ _ (by omega) h
+      exact ⟨by omega, fun _ => by omega⟩
+    · cases h
+
+theorem go_snoc (N : Table) (p : List Bool) (b : Bool) (nd j : Nat)
+    (h : go N nd (p ++ [b]) = some j) :
+    ∃ i, go N nd p = some i ∧ i ≥ NUM_SYMBOLS ∧ child N i b = j := by
+  rw [go_append] at h
+  cases hp : go N nd p with
+  | none => rw [hp] at h; cases h
+  | some i =>
+    rw [hp] at h
+    simp only [Option.bind_some, go] at h
+    split at h
+    · next hge => exact ⟨i, rfl, hge, by simpa using h⟩
+    · cases h
+
+theorem go_unique (N : Table) (hsize : N.size = 513) (hin : InnerBelow N) (hu : UniqueParent N)
+    (m : Nat) : ∀ (j : Nat) (p q : List Bool), 512 - j ≤ m →
+      go N ROOT_IDX p = some j → go N ROOT_IDX q = some j → p = q := by
+  induction m with
+  | zero =>
+    intro j p q hm hp hq
+    have l1 := go_le N hsize hin p ROOT_IDX j (by decide) hp
+    have l2 := go_le N hsize hin q ROOT_IDX j (by decide) hq
+    simp only [ROOT_IDX] at l1 l2
+    have hp' : p = [] := by
+      by_cases h : p = []
+      · exact h
+      · have := l1.2 h; omega
+    have hq' : q = [] := by
+      by_cases h : q = []
+      · exact h
+      · have := l2.2 h; omega
+    rw [hp', hq']
+  | succ m ih =>
+    intro j p q hm hp hq
+    have l1 := go_le N hsize hin p ROOT_IDX j (by decide) hp
+    have l2 := go_le N hsize hin q ROOT_IDX j (by decide) hq
+    simp only [ROOT_IDX] at l1 l2
+    rcases List.eq_nil_or_concat p with rfl | ⟨p', b, rfl⟩
+    · rcases List.eq_nil_or_concat q with rfl | ⟨q', b', rfl⟩
+      · rfl
+      · simp only [go, Option.some.injEq, ROOT_IDX] at hp
+        have := l2.2 (by simp)
+        omega
+    · rcases List.eq_nil_or_concat q with rfl | ⟨q', b', rfl⟩
+      · simp only [go, Option.some.injEq, ROOT_IDX] at hq
+        have := l1.2 (by simp)
+        omega
+      · simp only [List.concat_eq_append] at hp hq ⊢
+        obtain ⟨i, gi, i1, ci⟩ := go_snoc N p' b ROOT_IDX j hp
+        obtain ⟨i', gi', i1', ci'⟩ := go_snoc N q' b' ROOT_IDX j hq
+        have hi512 := (go_le N hsize hin p' ROOT_IDX i (by decide) gi).1
+        have hi512' := (go_le N hsize hin q' ROOT_IDX i' (by decide) gi').1
+        simp only [ROOT_IDX] at hi512 hi512'
+        have hchi := hin i i1 (by rw [hsize]; omega)
+        have hj : (node N i).1 = j ∨ (node N i).2 = j := by
+          cases b
+          · left; rw [child_false] at ci; exact ci
+          · right; rw [child_true] at ci; exact ci
+        have hj' : (node N i').1 = j ∨ (node N i').2 = j := by
+          cases b'
+          · left; rw [child_false] at ci'; exact ci'
+          · right; rw [child_true] at ci'; exact ci'
+        have hii : i = i' := hu i i' j i1 (by rw [hsize]; omega) i1' (by rw [hsize]; omega) hj hj'
+        subst hii
+        have hji : j < i := by rcases hj with e | e <;> omega
+        have hpq : p' = q' := ih i p' q' (by omega) gi gi'
+        have hbb : b = b' := by
+          cases b <;> cases b' <;>
+            simp only [child_false, child_true] at ci ci' <;> first | rfl | (exfalso; omega)
+        rw [hpq, hbb]
+
+theorem fromFrequencies_lutOk (f : List Nat) (t : Table) (h : fromFrequencies f = .ok t) :
+    LutOk t := by
+  have hwf := fromFrequencies_wellFormed f t h
+  obtain ⟨T, hT1, hT2, _, hdfs, _, hT4⟩ := fromFrequencies_ok f t h
+  have hsame : SameInner t T := dfs_inner _ _ _ _ _ _ hdfs
+  intro i _
+  simp only [lutOkAtF, decide_eq_true_eq]
+  intro hlt
+  obtain ⟨_, _, w1⟩ := (lutWalk_spec t LUTBITS ROOT_IDX i (by decide)).1 hlt
+  have w2 := (hwf.leaf hlt).2.2.2
+  simp only [lutWalk, lutDepth] at w1
+  rw [walk_congr t T hsame _ ROOT_IDX (by decide)] at w1 w2
+  have g1 := walk_go T _ _ _ (by decide) w1
+  have g2 := walk_go T _ _ _ (by decide) w2
+  have := go_unique T hT1 hT2 hT4 512 _ _ _ (by omega) g1 g2
+  have hl := congrArg List.length this
+  rw [natBits_length, codeBits_length] at hl
+  exact hl.symm
 
 end Tw.Huffman
